@@ -330,7 +330,7 @@ def run():
                 bad += core.validate_records(ctx, 'PhaseRec', buf, constants={'M': M}, name='PhaseRec')
                 buf = []
         if buf:
-            ctx.sample([r for r in buf if r['kind'] == 'pfc' and len(r['k']) >= 4 and r['smooth'] and r['wrapped']][0])
+            ctx.sample_first([r for r in buf if r['kind'] == 'pfc' and len(r['k']) >= 4 and r['smooth'] and r['wrapped']])
             bad += core.validate_records(ctx, 'PhaseRec', buf, constants={'M': M}, name='PhaseRec')
         nft = ctx.pick(480, 4800)
         ft = [r for rs in pool.imap_unordered(gen_ft, [(ctx.seed * 100 + i, nft // 16) for i in range(16)]) for r in rs]
@@ -339,7 +339,7 @@ def run():
         k = cum(st, s0)
         if len(k) >= 3 and (max(k) // M) != (min(k) // M):
             ctx.nontrivial((st, s0))
-    ctx.sample(ft[0])
+    ctx.sample_first(ft)
     ctx.leg('A', invariants=invs)
     ctx.leg('B', lattice_sequences=len(items))
     ctx.leg('C', frequency_transform_runs=len(ft), by_method={m: sum(1 for r in ft if r['method'] == m) for m in TOL},
